@@ -40,6 +40,7 @@ var verifC17Src = []string{
 	"select id, count(v) over (partition by p order by k rows 9223372036854775807 preceding) from t",               // 26: offset beyond any partition
 	"select id, first_value(v) over (partition by p order by k rows between 1 following and 9223372036854775807 following) from t", // 27
 	"select id, lag(v, 1, 'n') over (partition by p order by k), lag(v, 1, 'N') over (partition by p order by k) from t",            // 28: differ in the case of a literal only
+	"select id, count(*) over (partition by p) from (select k, v, p, id, row_number() over (partition by k order by v) as rn from t) s", // 29: the source is a subquery that ran an analytic function on other columns
 }
 
 var verifC17Queries []parser.SelectQuery
@@ -257,6 +258,8 @@ func VerifC17Analytic() {
 			} else {
 				verifAssert("LAG next to a LAG that differs in a literal's case", isCell(pos-1))
 			}
+		case 29:
+			verifAssert("COUNT(*) over the partition of a subquery's result", isInt(int64(m)))
 		case 24:
 			verifAssert("COUNT over an empty frame", isInt(0))
 		case 25:
